@@ -557,7 +557,7 @@ func c03IterateLock(c *Case) {
 }
 
 func runC03(r *Run) {
-	r.Rule = "real TaskQueueSet, real started TaskQueue workers, the real ManagerEventsHandler as consumer. Three kinds of cases: (1) controlled: 2-4 named queues, random schedules (deliveries for several queues per event through the schedule or the kube channel, worker steps from yield point to yield point, handler results, repeated Start) compared op by op with the model; `plain` cases (Success/Fail/Repeat only) are run dry and checked for per-queue execution order = arrival order; (2) blocked: queue 1 is held inside its handler (or in a 60 s back-off) while the other queues receive and complete all their tasks; (3) free-running: the same with real goroutines and no scheduler control, handler durations 0-300us, failures and repeats, queue 1's first hook blocks on a channel until the other queues have completed everything. (4) whole operator: a real ShellOperator assembled from the real pieces over 2-5 generated bash hooks with schedule bindings in main and 1-3 named queues (queues created by initAndStartHookQueues), ticks sent into the schedule channel, hook processes write start/end markers with their number of binding contexts; hook h1 hangs while the other queues must finish; some hooks fail their first run. Oracles on the start/end/arrival trace of the real code: no two executions of one queue overlap, the handled task is the head, per-queue order = arrival order, the other queues complete n executions while queue 1's execution is open, placement by the consumer. Non-trivial = trace of >= 10 events; distinct = distinct op-line sequences."
+	r.Rule = "real TaskQueueSet, real started TaskQueue workers, the real ManagerEventsHandler as consumer. Three kinds of cases: (1) controlled: 2-4 named queues, random schedules (deliveries for several queues per event through the schedule or the kube channel, worker steps from yield point to yield point, handler results, repeated Start) compared op by op with the model; `plain` cases (Success/Fail/Repeat only) are run dry and checked for per-queue execution order = arrival order; (2) blocked: queue 1 is held inside its handler (or in a 60 s back-off) while the other queues receive and complete all their tasks; (3) free-running: the same with real goroutines and no scheduler control, handler durations 0-300us, failures and repeats, queue 1's first hook blocks on a channel until the other queues have completed everything. (4) whole operator: a real ShellOperator assembled from the real pieces over 2-5 generated bash hooks with schedule bindings in main and 1-3 named queues (queues created by initAndStartHookQueues), ticks sent into the schedule channel, hook processes write start/end markers with their number of binding contexts; hook h1 hangs while the other queues must finish; some hooks fail their first run. Oracles on the start/end/arrival trace of the real code: no two executions of one queue overlap, the handled task is the head, per-queue order = arrival order, the other queues complete n executions while queue 1's execution is open, placement by the consumer. (5) loader: generated v0/v1 configurations (schedule and kubernetes bindings, queue absent / named / main) through LoadAndValidate: every binding gets the queue it names, main when none. (6) controller: generated v0/v1 schedule configurations (1-5 bindings, crontabs from a pool of three) through the loader into a real HookController, EnableScheduleBindings, one HandleScheduleEvent per crontab, compared with Model/Routing (op schedfan) and judged by oracle fanout. (7) whole operator, multi-binding hooks: 2-4 bash hooks, v1 or v0, 1-3 schedule bindings each on crontabs from a pool of three, 0-1 kubernetes binding, every binding its own queue (absent, q1..q3); h1 is bound in q1 and in another queue (half of the time on one crontab) and its executions for q1 hang; taps at the consumer (tasks made per received event) and at every queue handler (queue identity, contexts handled); arrivals carry the configured queue, starts the queue that ran them; the other queues, including executions of h1 itself, must complete what arrived while q1 hangs. Non-trivial = trace of >= 10 events; distinct = distinct op-line sequences."
 	r.One(0, func(c *Case, _ *Rng) {
 		c.Desc = "default queue name from the real config loader"
 		c03DefaultQueue(c)
@@ -572,4 +572,7 @@ func runC03(r *Run) {
 	r.Cases(20000, r.N(300, 3000), 0, func(c *Case, rng *Rng) { c03Blocked(c, rng) })
 	r.Cases(30000, r.N(500, 8000), 0, func(c *Case, rng *Rng) { c03Free(c, rng) })
 	r.Cases(40000, r.N(24, 200), 8, func(c *Case, rng *Rng) { c03Operator(r, c, rng) })
+	r.Cases(50000, r.N(200, 2000), 0, func(c *Case, rng *Rng) { c03LoaderGen(c, rng) })
+	r.Cases(55000, r.N(300, 3000), 0, func(c *Case, rng *Rng) { c03Controller(c, rng) })
+	r.Cases(60000, r.N(40, 300), 8, func(c *Case, rng *Rng) { c03OperatorMulti(r, c, rng) })
 }
